@@ -142,8 +142,10 @@ Reads and appends are not traced; the acceptor below checks, on the events that 
 completeness theorem needs (`C18.follow_complete_partial`): the follower believes the target free only when it is
 (`unsoundFree`), it stops only after having seen it free (`stopWhileLocked`), and no new instance is created at the log
 name while the follower holds a descriptor on an older one — either because it opened the previous build's instance
-while the builder already held the lock (`staleOpen`, hypothesis (a)) or because the target is built again during the
-session (`rebuiltDuringFollow`, hypothesis (b)). -/
+while the builder already held the lock (`staleOpen`, hypothesis `ha` of `C18.follow_complete_one_build_partial`) or
+because the target is built again during the session (`rebuiltDuringFollow`, `createAfterFree`; hypothesis `hb`).
+Together these are the condition `CreateSafe` of `C18.follow_complete_general`: every `create` happens while the
+follower has no descriptor open and has not yet seen the target free. -/
 namespace Obs
 
 structure FolSt where
@@ -164,7 +166,7 @@ inductive OEv
   deriving DecidableEq, Repr
 
 inductive Flag
-  | badOrder | unsoundFree | stopWhileLocked | staleOpen | rebuiltDuringFollow | wrongInstance
+  | badOrder | unsoundFree | stopWhileLocked | staleOpen | rebuiltDuringFollow | wrongInstance | createAfterFree
   deriving DecidableEq, Repr
 
 def ostep (s : OSt) : OEv → Except Flag OSt
@@ -178,7 +180,9 @@ def ostep (s : OSt) : OEv → Except Flag OSt
          -- (the follower's `open` of the fresh instance may be logged before the builder's `create` of it)
          if o = ino then .ok { s with phase := .building, cur := some ino, fol := some { f with openedUnderLock := false } }
          else .error (if f.openedUnderLock then .staleOpen else .rebuiltDuringFollow)
-       | none => .ok { s with phase := .building, cur := some ino })
+       | none =>
+         -- no descriptor yet: safe only if the follower still believes the target locked (`CreateSafe` of the proofs)
+         if f.wasLocked then .ok { s with phase := .building, cur := some ino } else .error .createAfterFree)
     | none => .ok { s with phase := .building, cur := some ino }
   | .unlock => if s.phase = .idle then .error .badOrder else .ok { s with phase := .idle }
   | .enter b =>
